@@ -854,8 +854,9 @@ func nmove(wdt float64, subd int, zeit int, g *GlobalVarsMain, l *NitroSharedVar
 			g.C1[z] = 0
 		}
 	}
-	// the N fixation of the day is credited once, like the uptake, not in every sub-step
-	if subd == 1 && zeit >= g.SAAT[g.AKF.Index] && zeit <= g.ERNTE2[g.AKF.Index] {
+	// the N fixation of the day is credited once, like the uptake, not in every sub-step,
+	// and only to a crop that is sown (automatic sowing leaves SAAT = 0 until the crop is sown)
+	if subd == 1 && g.SAAT[g.AKF.Index] > 0 && zeit >= g.SAAT[g.AKF.Index] && zeit <= g.ERNTE2[g.AKF.Index] {
 		g.PESUM = g.PESUM + g.SCHNORR
 	}
 }
